@@ -27,7 +27,10 @@ const ERRS2: [E2; 55] = [
     E2::UnauthorizedPermission, E2::Other, E2::SpecLast, E2::ExtensionFirst, E2::ExtensionLast, E2::VendorFirst, E2::VendorLast,
 ];
 /// a broad sample of ISO 7816 status words, incl. Success and parameterised ones
-const ERRS1: [E1; 24] = [
+const ERRS1: [E1; 30] = [
+    // the catch-all representation of a status word, for words that also have a named variant and
+    // for one that has none (an error value must come back exactly as the handler returned it)
+    E1::__Unknown(0x6985), E1::__Unknown(0x9000), E1::__Unknown(0x6A80), E1::__Unknown(0x6100), E1::__Unknown(0x63C1), E1::__Unknown(0x1234),
     E1::Success, E1::ConditionsOfUseNotSatisfied, E1::IncorrectDataParameter, E1::WrongLength, E1::NotFound, E1::UnspecifiedCheckingError,
     E1::ClassNotSupported, E1::InstructionNotSupportedOrInvalid, E1::SecurityStatusNotSatisfied, E1::OperationBlocked, E1::NotEnoughMemory,
     E1::IncorrectP1OrP2Parameter, E1::FunctionNotSupported, E1::KeyReferenceNotFound, E1::LogicalChannelNotSupported,
@@ -177,6 +180,49 @@ macro_rules! impl_ctap2 {
     (@lb false) => {};
 }
 
+/// overrides the provided dispatcher method itself
+struct Gate {
+    calls: u32,
+    deny: bool,
+}
+impl ctap2::Authenticator for Gate {
+    fn call_ctap2(&mut self, _request: &ctap2::Request<'_>) -> ctap2::Result<ctap2::Response> {
+        self.calls += 1;
+        if self.deny {
+            Err(E2::OperationDenied)
+        } else {
+            Ok(ctap2::Response::Selection)
+        }
+    }
+    fn get_info(&mut self) -> ctap2::get_info::Response {
+        gi_value(0, 0)
+    }
+    fn make_credential(&mut self, _: &ctap2::make_credential::Request) -> ctap2::Result<ctap2::make_credential::Response> {
+        Err(E2::Other)
+    }
+    fn get_assertion(&mut self, _: &ctap2::get_assertion::Request) -> ctap2::Result<ctap2::get_assertion::Response> {
+        Err(E2::Other)
+    }
+    fn get_next_assertion(&mut self) -> ctap2::Result<ctap2::get_assertion::Response> {
+        Err(E2::Other)
+    }
+    fn reset(&mut self) -> ctap2::Result<()> {
+        Err(E2::Other)
+    }
+    fn client_pin(&mut self, _: &ctap2::client_pin::Request) -> ctap2::Result<ctap2::client_pin::Response> {
+        Err(E2::Other)
+    }
+    fn credential_management(&mut self, _: &ctap2::credential_management::Request) -> ctap2::Result<ctap2::credential_management::Response> {
+        Err(E2::Other)
+    }
+    fn selection(&mut self) -> ctap2::Result<()> {
+        Err(E2::Other)
+    }
+    fn vendor(&mut self, _: ctap2::VendorOperation) -> ctap2::Result<()> {
+        Err(E2::Other)
+    }
+}
+
 struct WithLb(Mock);
 struct NoLb(Mock);
 impl_ctap2!(WithLb, true);
@@ -303,6 +349,21 @@ fn g_ctap2(src: &mut Src, obs: &mut Obs) -> CaseResult {
         }
         let _ = m.0.has_large_blobs;
     }
+    // an authenticator that overrides the provided method `call_ctap2` (a gate in front of the
+    // dispatcher): the generic entry point must go through the same method
+    {
+        let mut direct = Gate { calls: 0, deny: salt & 1 == 0 };
+        let r1 = ctap2::Authenticator::call_ctap2(&mut direct, &req);
+        let mut generic = Gate { calls: 0, deny: salt & 1 == 0 };
+        let r2 = <Gate as Rpc<E2, ctap2::Request, ctap2::Response>>::call(&mut generic, &req);
+        obs.label("overridden-call_ctap2");
+        if r1 != r2 || direct.calls != generic.calls {
+            return Err(fail(
+                "generic-entry-bypasses-override",
+                format!("authenticator overriding call_ctap2: direct call -> {} ({} gate calls), Rpc::call -> {} ({} gate calls)", render2(&r1), direct.calls, render2(&r2), generic.calls),
+            ));
+        }
+    }
     // an authenticator that does not implement large blobs
     if h == 9 {
         let mut m = NoLb(Mock { salt, log: vec![], table, table1: [None, None], has_large_blobs: false });
@@ -373,7 +434,33 @@ fn g_ctap1(src: &mut Src, obs: &mut Obs) -> CaseResult {
             return Err(fail("result", format!("{}: returned {:?}, expected {:?}", ename, got, want)));
         }
     }
+    // an authenticator that overrides the provided method `call_ctap1`
+    {
+        let mut direct = Gate1 { calls: 0 };
+        let r1 = ctap1::Authenticator::call_ctap1(&mut direct, &req);
+        let mut generic = Gate1 { calls: 0 };
+        let r2 = <Gate1 as Rpc<E1, ctap1::Request, ctap1::Response>>::call(&mut generic, &req);
+        if r1 != r2 || direct.calls != generic.calls {
+            return Err(fail("generic-entry-bypasses-override", format!("authenticator overriding call_ctap1: direct {:?} ({} calls), Rpc::call {:?} ({} calls)", r1, direct.calls, r2, generic.calls)));
+        }
+    }
     Ok(())
+}
+
+struct Gate1 {
+    calls: u32,
+}
+impl ctap1::Authenticator for Gate1 {
+    fn register(&mut self, _: &ctap1::register::Request<'_>) -> ctap1::Result<ctap1::register::Response> {
+        Err(E1::NotFound)
+    }
+    fn authenticate(&mut self, _: &ctap1::authenticate::Request<'_>) -> ctap1::Result<ctap1::authenticate::Response> {
+        Err(E1::NotFound)
+    }
+    fn call_ctap1(&mut self, _: &ctap1::Request<'_>) -> ctap1::Result<ctap1::Response> {
+        self.calls += 1;
+        Err(E1::OperationBlocked)
+    }
 }
 
 fn render2(r: &Result<ctap2::Response, E2>) -> String {
@@ -392,7 +479,7 @@ pub fn gens() -> Vec<Gen> {
     vec![G2, G1]
 }
 
-pub const RULE: &str = "A recording mock implements both Authenticator traits: every handler appends (name, Debug rendering of its argument) to a log and returns a handler-specific success value in which every optional member is set and whose contents vary from case to case (counts 0/1/2/3/7, presence bytes 0x00/0x01/0x02/0x80/0xFE/0xFF, flags) or one of every named CTAP2 status (55) / 24 ISO 7816 status words incl. Success according to a generated behaviour table (handler -> Ok | Err(e_i)); a second mock leaves large_blobs at its default; version() is overridden. Requests: every CTAP2 variant (exhaustive over the 10 variants and all 64 vendor codes 0x40..0x7F; parameter-bearing ones obtained by decoding messages from the C01 generator) and the 3 CTAP1 variants (decoded from framed APDUs), each crossed with proptest behaviour tables and with both entry points (call_ctap2 / call_ctap1 and Rpc::call). Oracle: exactly one log entry (none for CTAP1 Version), for the command's handler, with an argument rendering equal to the request payload's; result = Ok(same-named variant(handler value)) or Err(handler error) unchanged; GetInfo Ok whatever the table; default large_blobs -> Err(InvalidCommand) with an empty log; both entry points agree. Non-trivial: the behaviour table gives the invoked handler an outcome that differs from at least one other handler (so cross-wiring is observable).";
+pub const RULE: &str = "A recording mock implements both Authenticator traits: every handler appends (name, Debug rendering of its argument) to a log and returns a handler-specific success value in which every optional member is set and whose contents vary from case to case (counts 0/1/2/3/7, presence bytes 0x00/0x01/0x02/0x80/0xFE/0xFF, flags) or one of every named CTAP2 status (55) / 24 ISO 7816 status words incl. Success according to a generated behaviour table (handler -> Ok | Err(e_i)); a second mock leaves large_blobs at its default; a third overrides the provided method call_ctap2 itself (both entry points must go through it); CTAP1 handler errors include the catch-all representation __Unknown(sw) for named and unnamed status words; version() is overridden. Requests: every CTAP2 variant (exhaustive over the 10 variants and all 64 vendor codes 0x40..0x7F; parameter-bearing ones obtained by decoding messages from the C01 generator) and the 3 CTAP1 variants (decoded from framed APDUs), each crossed with proptest behaviour tables and with both entry points (call_ctap2 / call_ctap1 and Rpc::call). Oracle: exactly one log entry (none for CTAP1 Version), for the command's handler, with an argument rendering equal to the request payload's; result = Ok(same-named variant(handler value)) or Err(handler error) unchanged; GetInfo Ok whatever the table; default large_blobs -> Err(InvalidCommand) with an empty log; both entry points agree. Non-trivial: the behaviour table gives the invoked handler an outcome that differs from at least one other handler (so cross-wiring is observable).";
 pub const ASSUMPTIONS: &[&str] = &["handler arguments are compared through their Debug rendering (the argument types are not Clone-free comparable across the trait boundary)"];
 
 pub fn run(ctx: &mut Ctx) {
